@@ -465,6 +465,11 @@ def main():
         L.append('Definition %s : list string :=' % nm)
         L.append('  [' + ';\n   '.join(coqstr(x) for x in (st if st is not None else ['<not found>'])) + '].')
         L.append('')
+    asrc = open(os.path.join(src, 'AbstractFile.cpp')).read()
+    st = function_statements(asrc, 'AbstractFile::skipp')
+    L.append('Definition skel_skipp : list string :=')
+    L.append('  [' + ';\n   '.join(coqstr(x) for x in (st if st is not None else ['<not found>'])) + '].')
+    L.append('')
     write_if_changed(os.path.join(gen, 'FileSkel.v'), '\n'.join(L) + '\n')
     json.dump({'oq': {'members': qm, 'methods': [{k: v for k, v in m.items()} for m in qmeth]},
                'uf': {'members': um, 'methods': [{k: v for k, v in m.items()} for m in umeth]}}, open(jout, 'w'), indent=1)
